@@ -173,7 +173,33 @@ def check(pid, tier):
             nlines += len(lines)
             if bi == 0:
                 samples = [json.loads(lines[0]), json.loads(lines[-1])]
+        # ---- service level: the configuration goes live in the real RaAdvService, a router solicitation is answered over the veth pair
+        import http_rig
+        def wire_env(c):
+            c = json.loads(json.dumps(c))
+            c["env"] = {"ll": val([2, 0, 0, 0, 1, 1]), "ifmtu": 1500, "self6": v6("2001:db8:0:1::1"), "deflife": pair(0)}
+            return c
+        def fits_link(c):
+            # an advertisement larger than the link MTU cannot be sent at all (it is never fragmented); such
+            # configurations are judged at function level only
+            i, top = c["if"], c["top"]
+            n = 16 + 8 + 8 + 32 * len(i["prefixes"]) + 16
+            for sec, key, per in (("dns", "addresses", 16), ("search", "domains", 0)):
+                v = i[sec][key] if i[sec]["s"] == "val" and i[sec][key]["s"] == "val" else top[sec] if top[sec]["s"] == "val" else None
+                if v is not None:
+                    n += 8 + (per * len(v["v"]) if per else v.get("n", 0) + 8)
+            for pv in (i["portal"], top["portal"]):
+                if pv["s"] == "val":
+                    n += pv.get("n", 0) + 10
+            return n < 1200
+        pool = [c for c in cases if fits_link(c)]
+        wcases = [wire_env(c) for c in (pool if run.thorough else pool[:1] + run.rng.sample(pool, min(len(pool), 120)))]
+        tf2, sl, p = http_rig.run_full(run, pid, [{"acls": None, "steps": [{"op": "radv", "cfg": c} for c in wcases]}], "radv")
+        rep = tlc_trace(run, "RadvTrace", "RadvTrace.cfg", tf2, {"Enforce": tla_set([pid])}, tag="svc")
+        record_violations(run, pid, rep["viol"], sl, trace_name="radv-svc", max_prefix=1)
+        svc = {"advertisements": sum(1 for l in sl if '"ev":"ra"' in l and '"outcome":"ok"' in l), "cases": len(wcases), "counters": rep["stats"]}
         cov = {
+            "service_level": svc,
             "evaluations": nlines, "traces_validated_against_impl": nlines, "states": run.mc["states"] + nlines + 1, "transitions": run.mc["transitions"] + nlines,
             "model_checking": run.mc,
             "distinct_nontrivial": len({json.dumps(c, sort_keys=True) for c in cases}),
@@ -183,7 +209,8 @@ def check(pid, tier):
         rc = finish(run, "model_checking", cov, [
             "the decoder is the harness's own, written from the RFCs; equality with the configured values is decided by TLC (Radv.tla)",
             "default lifetimes of the DNS options are not constrained (manual and code disagree); a configured value that does not fit its field may be rejected at load or clamped",
-            "function level through the hook radv::verif_build_ra (repeats the mtu/lifetime defaulting of build_announcement); the scheduler and the socket are not driven",
+            "function level through the hook radv::verif_build_ra (repeats the mtu/lifetime defaulting of build_announcement)",
+            "service level: the case's configuration is swapped into the running RaAdvService (interface veth0 of the private namespace), a router solicitation is sent from the other end of the veth pair and the advertisement captured there is decoded and judged by the same RadvTrace; environment = the interface's real link-layer address, MTU 1500, global address 2001:db8:0:1::1 for $self6, no default route (default router lifetime 0); the periodic (unsolicited) sender is not waited for",
         ])
     except ToolError as e:
         log("TOOL-ERROR: %s" % e)
